@@ -144,6 +144,8 @@ func hasPresent(t *ref.T, v ref.V) bool {
 	return false
 }
 
+var c09Prior = map[*ref.T]ref.V{}
+
 func c09Case(c *mc.Ctx, cfg ref.Cfg, it ref.Item, v ref.V, vs string, undoc string) {
 	c.Dim("pos:" + it.Pos)
 	pre := fmt.Sprintf("%s|%s|%s|%s", cfg, it.Pos, it.T, undoc)
@@ -170,6 +172,47 @@ func c09Case(c *mc.Ctx, cfg ref.Cfg, it ref.Item, v ref.V, vs string, undoc stri
 			c.Outcome("presence-mismatch")
 			c.Violation(pre+"mismatch:"+path, detail+" data="+hx(data))
 			return
+		}
+		// the same data into a destination that already holds present values everywhere: absent in
+		// the data at a presence-carrying map entry means the entry's old value goes, present-but-zero
+		// overwrites (the merge rules are C10's; here they are applied to every presence position)
+		prior, ok := c09Prior[it.T]
+		if !ok {
+			vals := ref.Values(it.T, 1)
+			prior = vals[len(vals)-1]
+			for _, pv := range vals {
+				if hasPresent(it.T, pv) && !ref.NestedAbsent(it.T, pv) {
+					prior = pv
+				}
+			}
+			c09Prior[it.T] = prior
+		}
+		if !ref.NestedAbsent(it.T, v) && !ref.NestedAbsent(it.T, prior) {
+			c.Dim("reused-destination")
+			out2 := fresh(it.T)
+			out2.Elem().Set(ref.ToReflect(it.T, prior))
+			if err := p.Unmarshal(data, out2.Interface()); err != nil {
+				c.Violation(pre+"unmarshal-error-into-populated-destination", err.Error()+" data="+hx(data))
+				return
+			}
+			got2 := ref.FromReflect(it.T, out2.Elem())
+			alts := ref.Merge(cfg, it.T, "", prior, v, true)
+			match := false
+			var firstPath, firstDetail string
+			for _, a := range alts {
+				path, detail, differ := ref.Diff(it.T, a, got2)
+				if !differ {
+					match = true
+					break
+				}
+				if firstPath == "" {
+					firstPath, firstDetail = path, detail
+				}
+			}
+			if !match {
+				c.Violation(pre+"reused-destination-mismatch:"+firstPath, fmt.Sprintf("prior %s, data of %s: %s", ref.Str(it.T, prior), vs, firstDetail))
+				return
+			}
 		}
 		// plain siblings: the zero value leaves no tag at all
 		if v.E[0].U == 0 && v.E[2].S == "" && !hasPresent(it.T, v) && ref.Omit(it.T.Fields[1].T, v.E[1]) {
